@@ -35,6 +35,8 @@ use std::{
 };
 
 use crate::{ctx, time};
+#[cfg(era_consensus_verif)]
+use crate::verif::tokio_shim as tokio;
 
 mod macros;
 mod must_complete;
